@@ -27,7 +27,7 @@ var libOverlay = func(files ...string) map[string][]string {
 
 func init() {
 	properties["C01"] = &PropertySpec{ID: "C01",
-		Rule: "shapes: every atom kind alone, every combinator over literal atoms, global-pattern programs (list in harness/C01/c01.go); text: all ASCII strings of length 0..T (quick T=3, thorough T=5); literal bytes symbolic (printable ASCII) in the symbolic-literal group",
+		Rule:        "shapes: every atom kind alone, every combinator over literal atoms, global-pattern programs (list in harness/C01/c01.go); text: all ASCII strings of length 0..T (quick T=3, thorough T=5); literal bytes symbolic (printable ASCII) in the symbolic-literal group",
 		Assumptions: []string{"ASCII text", "loop ids returned by math/rand.Int63 are pairwise distinct", "programs on which the property statement is silent (empty literals, empty/unbound back-references, named loops, whole file/line/word) are assumed away"},
 		Groups: []JobGroup{
 			{Name: "c01-concrete-literals", Overlay: libOverlay("C01/c01.go"), Pkg: "libvore", Entry: "VerifC01",
@@ -141,7 +141,7 @@ func init() {
 				}},
 		}}
 	properties["C13"] = &PropertySpec{ID: "C13",
-		Rule:        "18 capture-free bodies x 15 naming contexts (inline subroutine, global pattern referenced 1..3 times, prefix/suffix/loop/alternation contexts, nested globals) + 5 multi-command programs, x ASCII texts of length 0..T (quick 3, thorough 4); Run repeated, bytecode frozen during Run (write footprint), source recompiled",
+		Rule:        "18 capture-free bodies x 22 naming contexts (inline subroutine, global pattern referenced 1..3 times, prefix/suffix/loop/alternation contexts, nested globals) + 5 multi-command programs, x ASCII texts of length 0..T (quick 3, thorough 4); Run repeated, bytecode frozen during Run (write footprint), source recompiled",
 		Assumptions: []string{"ASCII text", "capture-free bodies (name clashes are by design)"},
 		Groups: []JobGroup{
 			{Name: "c13", Overlay: libOverlay("C13/c13.go"), Pkg: "libvore", Entry: "VerifC13", PanicOK: true,
@@ -331,9 +331,17 @@ func init() {
 				Args: func(tier string, l *Loaded) [][]int64 { return [][]int64{{0, 1, 1}} }},
 		}}
 	properties["C07"] = &PropertySpec{ID: "C07",
-		Rule:        "(1) inductive step on the real BufferedFile.Seek/Read from an arbitrary window state satisfying the representation invariant, abstract file of symbolic size F in [1,2^40) whose byte at offset i is byte(i): Seek(off,SeekStart) for every off in [0,F], Seek(0,SeekCurrent), Read(p) with len(p) in 1..3 (thorough 4) inside the file; invariant, window-contains-offset, buffer content (Skolem position) and returned bytes asserted; (2) NewBufferedFile establishes the invariant for every F in [0,2^40); files.Reader Seek+Read / ReadAt over BufferedFile return file[off:off+n] or \"\" (n <= 3), plus a backward read; (3) whole pipeline RunFiles vs Run on the same bytes for 19 programs x contents of length 0..T (quick 3, thorough 5; ASCII and all bytes)",
+		Rule:        "(1) inductive step on the real BufferedFile.Seek/Read from an arbitrary window state satisfying the representation invariant, abstract file of symbolic size F in [1,2^40) whose byte at offset i is byte(i): Seek(off,SeekStart) for every off in [0,F], Seek(0,SeekCurrent), Read(p) with len(p) in 1..3 (thorough 4) inside the file; invariant, window-contains-offset, buffer content (Skolem position) and returned bytes asserted; (1b) the same step with window-relative quantities restricted to boundary classes (offset in window {0,1,2047,2048,4094,4095,4096} x bytes after the window {0,1,3,2047,2048,2049,5000}, short files {1,2,100,4095}; absolute window position symbolic; read lengths 1..6, thorough 8) on an ordinary 4096-cell buffer, which also executes implementations that use copy()/sub-slices; (2) NewBufferedFile establishes the invariant for every F in [0,2^40); files.Reader Seek+Read / ReadAt over BufferedFile return file[off:off+n] or \"\" (n <= 3), plus a backward read; (3) whole pipeline RunFiles vs Run on the same bytes for 19 programs x contents of length 0..T (quick 3, thorough 5; ASCII and all bytes)",
 		Assumptions: []string{"the kernel implements pread/read as documented (stub contract)", "file content function byte(i): a wrong offset that differs by a multiple of 256 is not visible in the data (it is visible in the offset assertions)", "reads longer than 4 bytes in one call are covered through the per-iteration argument"},
 		Groups: []JobGroup{
+			{Name: "c07-step-classes", Overlay: filesOv("C07/c07_step.go"), Pkg: "files", Entry: "VerifC07StepClasses",
+				Args: func(tier string, l *Loaded) [][]int64 {
+					var out [][]int64
+					for c := 0; c < countOf(l, "files", "VerifC07StepClassesCount"); c++ {
+						out = append(out, []int64{int64(c), 0, 0}, []int64{int64(c), 1, tOf(tier, 6, 8)})
+					}
+					return out
+				}},
 			{Name: "c07-step", Overlay: filesOv("C07/c07_step.go"), Pkg: "files", Entry: "VerifC07Step",
 				Args: func(tier string, l *Loaded) [][]int64 {
 					k := tOf(tier, 3, 4)
@@ -371,12 +379,12 @@ func init() {
 				Args: func(tier string, l *Loaded) [][]int64 { return [][]int64{{1, 1, 1}} }},
 		}}
 	properties["C14"] = &PropertySpec{ID: "C14",
-		Rule:        "85 regexes of the supported subset (every construct alone, every quantifier incl. lazy forms on literal/class/group atoms, plain/non-capturing/named groups nested to depth 2, alternation of atoms or groups alone and under quantifiers, ^ $ anchors, numbered and named back-references incl. nested groups) x ASCII texts of length 0..T (quick 3, thorough 5) without \\r \\f \\v; spans and group bindings compared with an independent backtracking regex engine written in the harness",
+		Rule:        "96 regexes of the supported subset (every construct alone, every quantifier incl. lazy forms on literal/class/group atoms, plain/non-capturing/named groups nested to depth 2, alternation of atoms or groups alone and under quantifiers, ^ $ anchors, numbered and named back-references incl. nested groups) x ASCII texts of length 0..T (quick 4, thorough 6) without \\r \\f \\v; spans and group bindings compared with an independent backtracking regex engine written in the harness",
 		Assumptions: []string{"texts contain no \\r, \\f, \\v (engines differ on \\s for \\v; the property excludes \\r and \\f)", "repeated bodies that match the empty string and references to unset/empty groups are assumed away", "alternatives are single atoms or groups spanning the enclosing group (ab|cd is outside the stated subset)", "\\w \\W \\b \\B, look-around, empty classes are outside the subset"},
 		Groups: []JobGroup{
 			{Name: "c14", Overlay: libOverlay("C14/c14.go"), Pkg: "libvore", Entry: "VerifC14", PanicOK: true,
 				Args: func(tier string, l *Loaded) [][]int64 {
-					return seqArgs(countOf(l, "libvore", "VerifC14Count"), tOf(tier, 3, 5), 0)
+					return seqArgs(countOf(l, "libvore", "VerifC14Count"), tOf(tier, 4, 6), 0)
 				}},
 			{Name: "c14-twin", Overlay: libOverlay("C14/c14.go"), Pkg: "libvore", Entry: "VerifC14", Twin: true, PanicOK: true,
 				Args: func(tier string, l *Loaded) [][]int64 { return [][]int64{{0, 2, 1}} }},
@@ -408,7 +416,7 @@ func init() {
 				Args: func(tier string, l *Loaded) [][]int64 { return [][]int64{{0, 1}} }},
 		}}
 	properties["C17"] = &PropertySpec{ID: "C17",
-		Rule:        "8 programs (find/replace, flat captures, named loops nested to depth 2, zero matches, multi-command) x ASCII texts of length 0..T (quick 2, thorough 3) over ALL 128 values incl. quotes, backslashes and control characters: the real Json/FormattedJson/MarshalJSON code renders through the abstract encoding/json codec; both renderings are parsed by the harness' JSON parser, compared as documents and against the in-memory matches field by field (keys exactly as documented, replacement iff replace, nested variables)",
+		Rule:        "11 programs (find/replace incl. empty replacements, flat captures, named loops nested to depth 2, zero matches, multi-command) x ASCII texts of length 0..T (quick 2, thorough 3) over ALL 128 values incl. quotes, backslashes and control characters: the real Json/FormattedJson/MarshalJSON code renders through the abstract encoding/json codec; both renderings are parsed by the harness' JSON parser, compared as documents and against the in-memory matches field by field (keys exactly as documented, replacement iff replace, nested variables)",
 		Assumptions: []string{"encoding/json is replaced by a type-directed codec stub honouring the json.Marshaler contract (calls the repository's MarshalJSON methods); byte-level escaping, invalid UTF-8 and non-ASCII handling of the real encoder are outside the claim (exercised only when a counterexample is replayed natively)", "ASCII texts"},
 		Groups: []JobGroup{
 			{Name: "c17", Overlay: libOverlay("common/jsonparse.go", "C17/c17.go"), Pkg: "libvore", Entry: "VerifC17",
